@@ -429,6 +429,20 @@ func C02(ctx *core.Ctx) {
 					}
 				})
 				construct := QName(fn) + sprintf(" › lookup #%d by unqualified name", i+1)
+				// … or the map consulted is itself selected by the qualifier (index of the
+				// declaring file obtained from a helper that is handed IncludeName())
+				selected := false
+				ssax.Instrs(fn, func(in ssa.Instruction) {
+					if ic, isC := ssax.AsCall(in); isC && ic.ShortName() == "IncludeName" && len(ic.Common.Args) > 0 && ssax.Strip(ic.Common.Args[0]) == typ {
+						if v, isV := in.(ssa.Value); isV && dependsOn(lk.X, v, 0) {
+							selected = true
+						}
+					}
+				})
+				if selected {
+					ctx.Discharge("C02.R6", construct, cc.IPos(lk), "the map consulted is chosen from the type's IncludeName()")
+					continue
+				}
 				if test == nil {
 					ctx.Violate("C02.R6", construct, cc.IPos(lk), "a type is looked up by its unqualified name without ever testing its include qualifier: 'Count' and 'inc.Count' resolve to the same entry")
 					continue
